@@ -6,14 +6,13 @@
   nesting through fragment spreads below ~100 levels, acyclic). With `Props/C06_overlap_memo_complete.lean` the same
   statements hold for the chain whose overlap rule is the memoised one (`SilentM`), and the hypothesis list SHRINKS:
   `DocOkM` = selection-set identities pairwise distinct (`wfIdsB`), no `__schema` / `__type` / `__typename` selection with
-  a sub-selection (`noMetaSubsB`), syntactic ranks (`rankSynB`: nesting of selection sets only - no condition on
-  fragment spreads, no bound by a fuel), non-empty fragment names. What remains, precisely:
+  a sub-selection (`noMetaSubsB`), non-empty fragment names - no ranks at all (the syntactic ranks the termination
+  proof needs exist for every such document: `rankSynB_of_wfIds`). What remains, precisely:
     * `wfIdsB`, `NamesNonEmpty`: guaranteed by the parser / the harness encoding, not derivable inside the model (`Doc`
       carries identities and names as data);
     * `noMetaSubsB`: for `__schema { … }` / `__type { … }` the search derives the sub-selection's parent type through
       `parent_type.field_map`, which does not know the meta fields, `TypeInfoVisitor` through `_get_field_def`:
       `ParentsAgree` is FALSE for such documents (counted, not compared on the clause);
-    * `rankSynB`: computable, holds for every document the driver has been sent (`syn_rank`); not proved for all `Doc`;
     * `SchemaOutputs s`: every field of the schema has an output type (schema validation).
   ParentsAgree, the `ssid == fid` shortcut, NoCrash are all DERIVED (from the clauses of UniqueFragmentNames,
   NoFragmentCycles, ScalarLeafs, FragmentsOnCompositeTypes - available on both sides of the equivalence).
@@ -40,10 +39,9 @@ structure DocOkM (s : SchemaD) (d : Doc) : Prop where
   checks : DocChecksMemo s d
   names : NamesNonEmpty d
 
-/-- `DocOk` (with the rank check of the un-memoised search) is stronger, given syntactic ranks -/
-theorem docOkM_of_docOk {s : SchemaD} {d : Doc} (h : DocOk s d)
-    (hρ : rankSynB s d (rankOf (synRanks d)) (maxRank (synRanks d)) = true) : DocOkM s d :=
-  ⟨⟨h.checks.ids, h.checks.noMeta, hρ⟩, h.names⟩
+/-- `DocOk` (with the rank check of the un-memoised search) is stronger -/
+theorem docOkM_of_docOk {s : SchemaD} {d : Doc} (h : DocOk s d) : DocOkM s d :=
+  ⟨⟨h.checks.ids, h.checks.noMeta⟩, h.names⟩
 
 /-- **accepted ⇒ valid by all 26 clauses**, for the chain with the memoised overlap rule -/
 theorem accepted_spec_valid_all_memo (s : SchemaD) (fx : Fixes) (hfx : HeadVars fx) (hs : SchemaOutputs s) (d : Doc)
@@ -142,7 +140,7 @@ theorem attribution_all_memo (s : SchemaD) (fx : Fixes) (hfx : HeadVars fx) (hs 
     `Props/C06_overlap_examples.lean`; a document nested deeper than the un-memoised rank bound is `DocOkM` but not
     `DocOk` -/
 example : DocOkM oSchema (oDocFrag "a") :=
-  ⟨⟨by decide, by decide, by decide +kernel⟩, fun f hf => by
+  ⟨⟨by decide, by decide⟩, fun f hf => by
     simp only [Spec.fragNames, oDocFrag] at hf
     revert f; decide⟩
 
@@ -155,6 +153,6 @@ def deepSels : Nat → Nat → List Sel
     within the hypotheses of the memoised statements -/
 example : let dd : Doc := ⟨[opV [] 1 (deepSels 120 1)]⟩
     rankOkB oSchema dd (rankOf (computeRanks dd)) = false ∧ DocChecksMemo oSchema dd := by
-  refine ⟨by decide +kernel, by decide +kernel, by decide +kernel, by decide +kernel⟩
+  refine ⟨by decide +kernel, by decide +kernel, by decide +kernel⟩
 
 end PyGql.Props.C06
